@@ -100,6 +100,8 @@ impl OperationControl for Repeat {
                 positions.push(p);
             }
             for _i in 0..bound {
+                #[cfg(regexml_verif)]
+                crate::verif::tick(8);
                 let mut it = self.operation.matches_iter(matcher, p);
                 if let Some(next) = it.next() {
                     p = next;
@@ -195,17 +197,23 @@ impl Iterator for GreedyRepeatIterator<'_> {
     type Item = usize;
 
     fn next(&mut self) -> Option<Self::Item> {
+        #[cfg(regexml_verif)]
+        crate::verif::tick(9);
         let has_next = if self.primed && self.iterators.len() >= self.min {
             !self.iterators.is_empty()
         } else if self.iterators.is_empty() {
             false
         } else {
             loop {
+                #[cfg(regexml_verif)]
+                crate::verif::tick(10);
                 let top = self.iterators.last_mut().unwrap();
                 if let Some(mut p) = top.next() {
                     self.positions.pop();
                     self.positions.push(p);
                     while self.iterators.len() < self.bound {
+                        #[cfg(regexml_verif)]
+                        crate::verif::tick(11);
                         let mut it = self.operation.matches_iter(self.matcher, p);
                         if let Some(next) = it.next() {
                             p = next;
@@ -266,7 +274,11 @@ impl Iterator for ReluctantRepeatIterator<'_> {
     type Item = usize;
 
     fn next(&mut self) -> Option<Self::Item> {
+        #[cfg(regexml_verif)]
+        crate::verif::tick(12);
         loop {
+            #[cfg(regexml_verif)]
+            crate::verif::tick(13);
             if let Some(position) = self.position {
                 let mut it = self.operation.matches_iter(self.matcher, position);
                 if let Some(position) = it.next() {
